@@ -7,4 +7,5 @@ for p in "$@"; do
   out=$(./check $p $tier 2>&1); rc=$?
   echo "$p rc=$rc $(( $(date +%s)-s ))s $(echo "$out" | grep -c '^VIOLATION') violations | $(echo "$out" | grep "^$p $tier" | cut -c1-160)"
   echo "$out" | grep -A1 "violation oracle" | head -6
+  echo "$out" | grep -A3 "^MACHINERY" | head -12 | cut -c1-300
 done
